@@ -3,6 +3,7 @@ package main
 // C05 — Newick write -> read, names that need quoting.
 
 import (
+	"io"
 	"bytes"
 	"fmt"
 	"math"
@@ -47,7 +48,7 @@ func genNewickName(r *rand.Rand) string {
 	}
 }
 
-var newickDists = []float64{0, 1, -1, 0.1, 1e-320, 5e-324, math.MaxFloat64, 1e21, 1e20, 1e-7, math.Inf(1), math.Inf(-1), math.NaN(), 100, 0.5, -2.25, 1e-5, 123456.789}
+var newickDists = append([]float64{0, 1, -1, 0.1, 1e-320, 5e-324, math.MaxFloat64, 1e21, 1e20, 1e-7, math.Inf(1), math.Inf(-1), math.NaN(), 100, 0.5, -2.25, 1e-5, 123456.789}, hostileFloats...)
 
 func genNewickDist(r *rand.Rand) float64 {
 	switch r.IntN(4) {
@@ -82,6 +83,7 @@ func newickWrite(k *K, root *newick.Node) []byte {
 	if !bytes.Equal(m, w.Bytes()) {
 		k.Failf("write-vs-marshal", "Write and MarshalText differ (%d vs %d bytes)", w.Len(), len(m))
 	}
+	writerZoo(k, []func(io.Writer) error{root.Write}, m)
 	if len(m) == 0 || m[len(m)-1] != ';' {
 		k.Failf("written-form", "text does not end with ';': %.200q", m)
 		return m
@@ -149,6 +151,7 @@ func init() {
 			{Name: "fieldlens", TShards: 2, Run: lengthUnit("newick")},
 			{Name: "parallel", Race: true, Run: codecParallel("newick")},
 			{Name: "histories", Run: codecHistories("newick")},
+			firstCallUnit(firstCodec("newick")),
 		},
 	})
 }
@@ -235,6 +238,22 @@ func c05Names(c *Ctx) {
 		}
 	}
 	c.Exhaustive("names: all pairs over the special set ( ) , : ; ' _ space TAB LF CR, bare, around and inside letters")
+	// Every distance of the hostile list (and its negative and its two float
+	// neighbours) on a leaf, an inner node and the root: deterministic, so that
+	// no boundary value of a number formatter is left to the seed.
+	for _, d0 := range newickDists {
+		for _, d := range []float64{d0, -d0, math.Nextafter(d0, math.Inf(1)), math.Nextafter(d0, math.Inf(-1))} {
+			c.Case(idx, func(k *K) {
+				root := &newick.Node{Name: "r", Distance: d, Children: []*newick.Node{{Name: "a", Distance: d}, {Name: "in", Distance: d, Children: []*newick.Node{{Name: "b c", Distance: d}}}}}
+				k.Input("distance", fmt.Sprintf("%v (bits %x)", d, math.Float64bits(d)))
+				txt := newickRoundTrip(k, root)
+				k.Count("trees_roundtripped", 1)
+				k.Count("distance_sweep_cases", 1)
+				k.Nontrivial(txt)
+			})
+			idx++
+		}
+	}
 	// Random byte-string names.
 	n := c.N(6000, 200000)
 	for i := 0; i < n; i++ {
